@@ -173,7 +173,7 @@ def run_far(c, o):
     o.nontrivial = errs[0] > 1e-9
 
 
-def mphys_problem(surfaces, flow, compressible):
+def mphys_problem(surfaces, flow, compressible, mode="auto"):
     import openmdao.api as om
     from mphys.core import MPhysVariables as V
     from openaerostruct.mphys.demux_surface_mesh import DemuxSurfaceMesh
@@ -204,7 +204,7 @@ def mphys_problem(surfaces, flow, compressible):
         p.model.connect(s["name"] + "_toc", s["name"] + ".t_over_c")
     with warnings.catch_warnings():
         warnings.simplefilter("ignore")
-        p.setup()
+        p.setup(mode=mode)
     return p
 
 
